@@ -115,7 +115,7 @@ PROPS = {
    'must_reach': ['switch_in_bitmap', 'bitmap_across_claim', 'bitmap_rollback'],
  },
  'C15': {
-   'families': [('c15_arenas', 1, ALL)],
+   'families': [('c15_arenas', 1, ALL), ('c15_reclaim_route', 2, ALL)],
    'runs': {'quick': 1500, 'thorough': 100000},
    'rule': 'one or two extra arenas (reserved or donated with unaligned start/size; exclusive or not; committed or not; dirty or zero), default and arena-bound heaps interleaved in 1-3 threads, thread exit and adoption by allocation, by free and by the main thread forced collect; every returned pointer is checked against arena bounds/exclusivity; non-trivial = at least 10 allocations through an arena-bound heap succeeded; distinct = distinct (API hash, hot-switch signature)',
    'nontrivial': lambda r: r.get('allocs', 0) >= 20,
